@@ -2,12 +2,15 @@ package props
 
 import (
 	"fmt"
+	"go/token"
 	"go/types"
 	"sort"
+	"strings"
 
 	"golang.org/x/tools/go/ssa"
 
 	"gbverif/ir"
+	"gbverif/own"
 )
 
 // compiledSet describes a defined-set type that keeps a compiled form next to its pattern list.
@@ -339,10 +342,11 @@ func sameRecv(a, b ssa.Value) bool {
 func init() {
 	register(&Check{
 		ID: "C13",
-		Expl: "Decides only the cache-coherence clause 'editing a set leaves the compiled form equivalent to the edited pattern list' in its structural form: for every defined-set type that keeps compiled matchers next to its pattern lists (found from the code: a parameterless method that recomputes 'matchers' from other fields), every function that modifies a pattern list — directly or through the embedded list's Append/Remove/Replace — reaches that rebuild method on every path to a successful return.",
+		Expl: "Decides only the cache-coherence clause 'editing a set leaves the compiled form equivalent to the edited pattern list' in its structural form: for every defined-set type that keeps compiled matchers next to its pattern lists (found from the code: a parameterless method that recomputes 'matchers' from other fields), every function that modifies a pattern list — directly or through the embedded list's Append/Remove/Replace — reaches that rebuild method on every path to a successful return; and (E2.index-owned) the any-match indexes derived from the matcher list own their bitmaps (no aliasing of a matcher's bitmap, no write through the matcher list).",
 		Not: "That the compiled matchers (exact, wildcard, bitmap, any-index fast paths) decide what the regular expressions decide is a statement about strings and is not decided.",
 		Run: func(c *Ctx) {
 			c.ruleCompiledSetCoherence()
+			c.ruleIndexOwned()
 		},
 	})
 }
@@ -372,4 +376,185 @@ func knownNonNil(v ssa.Value, b *ssa.BasicBlock) bool {
 		}
 	}
 	return false
+}
+
+// pointerStores: stores (anywhere, including into locals and composite literals) of a pointer-typed
+// value derived from the seeds, followed into static callees that receive it.
+func (c *Ctx) pointerStores(fn *ssa.Function, seeds map[ssa.Value]bool, depth int, seen map[*ssa.Function]bool) []ssa.Instruction {
+	var out []ssa.Instruction
+	if depth > 4 || fn.Blocks == nil {
+		return nil
+	}
+	t := map[ssa.Value]bool{}
+	for v := range seeds {
+		t[v] = true
+	}
+	isPtr := func(v ssa.Value) bool {
+		switch v.Type().Underlying().(type) {
+		case *types.Pointer, *types.Map, *types.Slice, *types.Interface:
+			return true
+		}
+		return false
+	}
+	for changed, iter := true, 0; changed && iter < 20; iter++ {
+		changed = false
+		mark := func(v ssa.Value) {
+			if !t[v] {
+				t[v] = true
+				changed = true
+			}
+		}
+		for _, b := range fn.Blocks {
+			for _, in := range b.Instrs {
+				switch x := in.(type) {
+				case *ssa.UnOp:
+					// loading out of tainted memory (element / field of the matcher list)
+					if x.Op == token.MUL && t[x.X] {
+						mark(x)
+					}
+				case *ssa.Store:
+					// copying matcher content (a struct value, or a pointer spilled into a plain local variable)
+					if t[x.Val] {
+						if al, ok := x.Addr.(*ssa.Alloc); ok {
+							mark(al)
+						}
+					}
+				case *ssa.IndexAddr:
+					if t[x.X] {
+						mark(x)
+					}
+				case *ssa.FieldAddr:
+					if t[x.X] {
+						mark(x)
+					}
+				case *ssa.Field:
+					if t[x.X] {
+						mark(x)
+					}
+				case *ssa.Index:
+					if t[x.X] {
+						mark(x)
+					}
+				case *ssa.Phi:
+					for _, e := range x.Edges {
+						if t[e] {
+							mark(x)
+						}
+					}
+				case *ssa.ChangeType:
+					if t[x.X] {
+						mark(x)
+					}
+				case *ssa.MakeInterface:
+					if t[x.X] {
+						mark(x)
+					}
+				case *ssa.Slice:
+					if t[x.X] {
+						mark(x)
+					}
+				case *ssa.Range:
+					if t[x.X] {
+						mark(x)
+					}
+				case *ssa.Next:
+					if t[x.Iter] {
+						mark(x)
+					}
+				case *ssa.Extract:
+					if t[x.Tuple] {
+						mark(x)
+					}
+				}
+			}
+		}
+	}
+	for _, b := range fn.Blocks {
+		for _, in := range b.Instrs {
+			switch x := in.(type) {
+			case *ssa.Store:
+				if _, spill := x.Addr.(*ssa.Alloc); t[x.Val] && isPtr(x.Val) && !spill {
+					out = append(out, x)
+				}
+			case *ssa.MapUpdate:
+				if t[x.Value] && isPtr(x.Value) {
+					out = append(out, x)
+				}
+			case *ssa.Return:
+				for _, rv := range x.Results {
+					if t[rv] && isPtr(rv) {
+						out = append(out, x)
+					}
+				}
+			case ssa.CallInstruction:
+				cc := x.Common()
+				callee := cc.StaticCallee()
+				if callee == nil || !c.P.InModule(callee) || seen[callee] {
+					continue
+				}
+				sub := map[ssa.Value]bool{}
+				for i, a := range cc.Args {
+					if t[a] && isPtr(a) && i < len(callee.Params) {
+						sub[callee.Params[i]] = true
+					}
+				}
+				if len(sub) > 0 {
+					seen[callee] = true
+					out = append(out, c.pointerStores(callee, sub, depth+1, seen)...)
+					delete(seen, callee)
+				}
+			}
+		}
+	}
+	return out
+}
+
+// ruleIndexOwned: derived indexes own their memory.
+func (c *Ctx) ruleIndexOwned() {
+	r := c.R
+	rule := "E2.index-owned"
+	r.Rule(rule, "functions that derive an index from a list of compiled matchers (a parameter of type []…Matcher) neither write through that parameter nor return/store anything that aliases memory reachable from it: every bitmap in the index is the index's own allocation, so merging later patterns into the index cannot change what an individual matcher accepts", 2)
+	e := own.New(c.P)
+	n := 0
+	for _, fn := range c.P.FuncsIn("internal/pkg/table") {
+		if fn.Parent() != nil || fn.Blocks == nil {
+			continue
+		}
+		for i, p := range fn.Params {
+			sl, ok := p.Type().Underlying().(*types.Slice)
+			if !ok {
+				continue
+			}
+			nt := ir.NamedOf(sl.Elem())
+			if nt == nil || !strings.HasSuffix(nt.Obj().Name(), "Matcher") {
+				continue
+			}
+			if _, isStruct := nt.Underlying().(*types.Struct); !isStruct {
+				continue
+			}
+			if fn.Signature.Results().Len() == 0 {
+				continue
+			}
+			n++
+			fk := ir.FuncKey(fn)
+			cons := "derived from " + p.Name()
+			ws := e.WritesParam(fn, i)
+			ak := e.AliasKind(fn, i)
+			es := e.Escapes(fn, i)
+			ps := c.pointerStores(fn, map[ssa.Value]bool{p: true}, 0, map[*ssa.Function]bool{fn: true})
+			switch {
+			case len(ps) > 0:
+				r.Bad(rule, fk, cons, c.P.InstrPos(ps[0]), "a pointer taken from a matcher is kept (stored or returned) while building the index: the index entry aliases the matcher's own bitmap, so merging later patterns into the index changes what that matcher accepts")
+			case len(es) > 0:
+				r.Bad(rule, fk, cons, c.P.InstrPos(es[0].Instr), "a pointer taken from a matcher is stored into the index being built: the index entry aliases the matcher's own bitmap, so merging later patterns into the index changes what that matcher accepts")
+			case len(ws) > 0:
+				r.Bad(rule, fk, cons, c.P.InstrPos(ws[0].Instr), "building the index writes into memory that belongs to a matcher ("+e.Describe(ws[0])+")")
+			case ak != own.KindNone:
+				r.Bad(rule, fk, cons, c.P.Pos(fn.Pos()), "the returned index aliases memory reachable from the matcher list: later merges into the index change what an individual matcher accepts")
+			default:
+				r.Ok(rule, fk, cons, c.P.Pos(fn.Pos()), "no write through the matcher list, result owns its memory")
+			}
+		}
+	}
+	_ = n
 }
